@@ -699,7 +699,11 @@ class SqlalchemyRender:
                     ]
                     values.append(row)
 
-            stmt = table.insert().values(values)
+            if len(values) == 1:
+                # single row: the form every dialect compiles (oracle has no multi-row VALUES)
+                stmt = table.insert().values(values[0])
+            else:
+                stmt = table.insert().values(values)
         else:
             # is insert from subselect
             subquery = self.prepare_select(ast_query.from_select)
